@@ -811,11 +811,12 @@ func lockPairing(c *kit.Ctx, pkgSuffix string) {
 				fb, ok := v.(*ssa.FieldAddr)
 				return ok && kit.FieldVar(fb.X.Type(), fb.Field) == fv
 			}
-			// a deferred unlock anywhere after the lock covers all exits
-			deferred := false
+			// a deferred unlock covers every exit of the ways that pass the defer statement (a return in front of
+			// it leaves with the lock held)
+			releasing := map[ssa.Instruction]bool{}
 			kit.Instrs(fn, func(x ssa.Instruction) {
 				if d, ok := x.(*ssa.Defer); ok && kit.CalleeName(d) == unlock && sameMutex(d.Call.Args[0]) {
-					deferred = true
+					releasing[x] = true
 				}
 				// a deferred function literal that unlocks on every way through it
 				if d, ok := x.(*ssa.Defer); ok {
@@ -826,17 +827,38 @@ func lockPairing(c *kit.Ctx, pkgSuffix string) {
 							return ok && kit.CalleeName(u) == unlock && len(u.Call.Args) > 0 && sameMutex(u.Call.Args[0])
 						}, IgnorePanics: true})
 						if e == nil {
-							deferred = true
+							releasing[x] = true
 						}
 					}
 				}
 			})
-			if deferred {
-				c.OK(fn, "lock-released", call.Pos(), "released by a deferred "+unlock)
-				return
+			// the usual form: the defer follows the Lock at once
+			for d := range releasing {
+				if d.Block() == call.Block() && kit.Dominates(call, d) {
+					onlyBetween := true
+					for _, y := range call.Block().Instrs[kit.InstrIndex(call)+1 : kit.InstrIndex(d)] {
+						if _, isCall := y.(ssa.CallInstruction); isCall {
+							onlyBetween = false
+						}
+					}
+					if onlyBetween {
+						c.OK(fn, "lock-released", call.Pos(), "released by a deferred "+unlock)
+						return
+					}
+				}
+			}
+			// a defer registered before the Lock (defer mu.Unlock() above mu.Lock() is unusual but covers it)
+			for d := range releasing {
+				if kit.Dominates(d, call) {
+					c.OK(fn, "lock-released", call.Pos(), "released by a deferred "+unlock)
+					return
+				}
 			}
 			e := kit.PathFrom(call, kit.PathQuery{
 				Stop: func(x ssa.Instruction) bool {
+					if releasing[x] {
+						return true
+					}
 					u, ok := x.(*ssa.Call)
 					return ok && kit.CalleeName(u) == unlock && sameMutex(u.Call.Args[0])
 				},
@@ -917,7 +939,7 @@ func decodeErrorsKeepTheConnection(c *kit.Ctx) {
 		// (serr, ok := exceptionToError(...).(ServerError)): the class is the exception table's, not made up here
 		if ex, isEx := kit.Root(mi.X).(*ssa.Extract); isEx && ex.Index == 0 {
 			if ta, isTA := ex.Tuple.(*ssa.TypeAssert); isTA {
-				if call, isCall := kit.Root(ta.X).(*ssa.Call); isCall && kit.CalleeName(call) == kit.M("region", "", "exceptionToError") {
+				if isClassifiedError(ta.X, 0) {
 					c.OK(recv, "post-claim-error-class", posOf(mi), "the server's exception as classified by exceptionToError")
 					return
 				}
@@ -1611,6 +1633,58 @@ func isServerErrorProbe(p *kit.Prog, call *ssa.Call) bool {
 		})
 		if found {
 			return true
+		}
+	}
+	return false
+}
+
+// isClassifiedError: v is the result of exceptionToError, unchanged: the call itself, the value a type assertion
+// narrowed it to, or a variable that holds nil or such a result (the classification made once, before the ways
+// part: `var remoteErr error; if exc != nil { remoteErr = exceptionToError(...) }`).
+func isClassifiedError(v ssa.Value, depth int) bool {
+	if depth > 6 {
+		return false
+	}
+	v = kit.Root(v)
+	switch x := v.(type) {
+	case *ssa.Call:
+		return kit.CalleeName(x) == kit.M("region", "", "exceptionToError")
+	case *ssa.Extract:
+		if ta, ok := x.Tuple.(*ssa.TypeAssert); ok && x.Index == 0 {
+			return isClassifiedError(ta.X, depth+1)
+		}
+	case *ssa.TypeAssert:
+		return isClassifiedError(x.X, depth+1)
+	case *ssa.MakeInterface:
+		return isClassifiedError(x.X, depth+1)
+	case *ssa.Phi:
+		some := false
+		for _, e := range x.Edges {
+			if kit.IsNilConst(kit.Root(e)) {
+				continue
+			}
+			if !isClassifiedError(e, depth+1) {
+				return false
+			}
+			some = true
+		}
+		return some
+	case *ssa.UnOp:
+		if a, ok := x.X.(*ssa.Alloc); ok && x.Op == token.MUL {
+			some := false
+			for _, st := range kit.StoresTo(a) {
+				if kit.IsNilConst(kit.Root(st)) {
+					continue
+				}
+				if l, isLoad := kit.Root(st).(*ssa.UnOp); isLoad && l.Op == token.MUL && l.X == ssa.Value(a) {
+					continue
+				}
+				if !isClassifiedError(st, depth+1) {
+					return false
+				}
+				some = true
+			}
+			return some
 		}
 	}
 	return false
